@@ -197,6 +197,117 @@ def word_obs(w, with_line=True):
     return [w.value, qcode(w.quote_token), str(w.line_number or 0) if with_line else "0"]
 
 
+# ----------------------------------------------------------------------------- tree codec (mirrors coq/theories/Model/Tree.v)
+DEF_ATTRS = ["help", "caption", "short_caption", "optional", "type", "multiple", "input_size", "style",
+             "expert_level", "deprecated", "alias"]
+SCOPE_ATTRS = ["style", "help", "caption", "short_caption", "optional", "call", "multiple", "sequential_format",
+               "disable_add", "disable_delete", "expert_level", "alias"]
+
+
+def _optz(v):
+    return [] if v is None else [int(v)]
+
+
+def _is_int(v):
+    return v is None or (isinstance(v, int) and not isinstance(v, bool))
+
+
+def ty_sx(t):
+    """converter instance -> wire form of Tree.ty"""
+    pt = getattr(t, "phil_type", None)
+    if pt in ("words", "strings", "str", "qstr", "path", "key", "bool") and type(t).__name__ == pt + "_converters":
+        return [pt]
+    if pt == "int" and type(t).__name__ == "int_converters" and _is_int(t.value_min) and _is_int(t.value_max):
+        return ["int", _optz(t.value_min), _optz(t.value_max), bool(t.allow_none)]
+    if pt == "ints" and type(t).__name__ == "ints_converters" and all(
+            _is_int(v) for v in (t.size_min, t.size_max, t.value_min, t.value_max)):
+        return ["ints", _optz(t.size_min), _optz(t.size_max), _optz(t.value_min), _optz(t.value_max),
+                bool(t.allow_none_elements), bool(t.allow_auto_elements)]
+    if pt == "choice" and type(t).__name__ == "choice_converters":
+        return ["choice", bool(t.multi)]
+    return ["other", str(t)]
+
+
+def aval_sx(name, v):
+    import freephil
+
+    if v is None:
+        return None
+    if v is freephil.Auto or isinstance(v, type(freephil.Auto)):
+        return ["auto"]
+    if isinstance(v, bool):
+        return ["bool", v]
+    if isinstance(v, int):
+        return ["int", v]
+    if isinstance(v, str):
+        return ["str", v]
+    if name == "type":
+        return ["type", ty_sx(v)]
+    return ["str", str(v)]  # .call proxies etc.: printed text
+
+
+_WHERE_RE = re.compile(r"line (\d+)\)$")
+
+
+def where_line(where_str):
+    m = _WHERE_RE.search(where_str or "")
+    return int(m.group(1)) if m else 0
+
+
+def hdr_sx(o):
+    return [o.name, bool(o.is_disabled), int(o.is_template), bool(o.merge_names), int(o.primary_id or 0),
+            where_line(o.where_str)]
+
+
+def obj_sx(o):
+    """freephil definition/scope -> wire form of Tree.obj"""
+    names = DEF_ATTRS if o.is_definition else SCOPE_ATTRS
+    at = []
+    for n in names:
+        v = aval_sx(n, getattr(o, n))
+        if v is not None:
+            at.append([n, v])
+    if o.is_definition:
+        return ["def", hdr_sx(o), [[w.value, qcode(w.quote_token), int(w.line_number or 0)] for w in o.words], at]
+    return ["scope", hdr_sx(o), [obj_sx(k) for k in o.objects], at]
+
+
+def objs_sx(scope):
+    return [obj_sx(o) for o in scope.objects]
+
+
+def canon(x):
+    """Normalise a python value built for enc() into the shape dec() returns (all atoms as str)."""
+    if isinstance(x, bool):
+        return "1" if x else "0"
+    if isinstance(x, int):
+        return str(x)
+    if isinstance(x, (list, tuple)):
+        return [canon(y) for y in x]
+    if isinstance(x, bytes):
+        return x.decode("latin-1")
+    return x
+
+
+def strip_tree(t, keep_line=False, keep_pid=False, keep_tmpl=True, keep_merge=True):
+    """Canonical tree (as returned by dec or canon(obj_sx)) with selected header fields blanked."""
+    kind, h, body, at = t
+    h = list(h)
+    if not keep_tmpl:
+        h[2] = "0"
+    if not keep_merge:
+        h[3] = "0"
+    if not keep_pid:
+        h[4] = "0"
+    if not keep_line:
+        h[5] = "0"
+    if kind == "def":
+        body = [[w[0], w[1], w[2] if keep_line else "0"] for w in body]
+    else:
+        body = [strip_tree(k, keep_line, keep_pid, keep_tmpl, keep_merge) for k in body]
+    return [kind, h, body, at]
+
+
 # ----------------------------------------------------------------------------- theorems
 def check_theorems(pid, thorough=False):
     """Re-compile Properties/<pid>.v; return dict(obligations, discharged, names, assumptions, ok, log, cmd)."""
@@ -252,16 +363,18 @@ def run_coqchk(pid):
     return {"rc": p.returncode, "wall_s": round(time.time() - t, 1), "tail": txt[-1500:]}
 
 
-def ensure_built(clusters):
-    """Incremental build (normally a no-op after setup)."""
+def ensure_built(pid, clusters):
+    """Incremental build of this property's cone only (normally a no-op after setup): the .vo files
+    Properties/<pid>.v and the clusters' entry files depend on, and the clusters' drivers."""
     import fcntl
 
     os.makedirs(BUILD, exist_ok=True)
     with open(BUILD + "/.lock", "w") as lk:
         fcntl.flock(lk, fcntl.LOCK_EX)
-        p = subprocess.run([V + "/build.sh", "coq"], stdout=subprocess.PIPE, stderr=subprocess.PIPE)
-        if p.returncode != 0:
-            return False, p.stderr.decode("utf-8", "replace")[-3000:]
+        targets = ["theories/Properties/%s.vo" % pid] + ["theories/Model/Entry%s.vo" % c for c in clusters]
+        p = subprocess.run([V + "/build.sh", "cone"] + targets, stdout=subprocess.PIPE, stderr=subprocess.PIPE)
+        cone_ok = p.returncode == 0
+        cone_log = p.stderr.decode("utf-8", "replace")[-3000:]
         for c in clusters:
             drv = "%s/%s/drv" % (BUILD, c)
             srcs = glob.glob(COQ + "/theories/Model/*.v") + [COQ + "/theories/Extraction/Extract%s.v" % c, V + "/ocaml/driver.ml"]
@@ -269,7 +382,8 @@ def ensure_built(clusters):
                 p = subprocess.run([V + "/build.sh", "driver", c], stdout=subprocess.PIPE, stderr=subprocess.PIPE)
                 if p.returncode != 0:
                     return False, p.stderr.decode("utf-8", "replace")[-3000:]
-    return True, ""
+    # a cone failure is reported by check_theorems as a broken obligation, not as a harness error
+    return True, "" if cone_ok else cone_log
 
 
 # ----------------------------------------------------------------------------- streams
@@ -496,7 +610,7 @@ def run_check(pid, spec, tier, seed, replay=None):
                   match_finding=callable(finding, failure)->bool)"""
     t0 = time.time()
     ctx = Ctx(pid, tier, seed)
-    ok, log = ensure_built(spec["clusters"])
+    ok, log = ensure_built(pid, spec["clusters"])
     if not ok:
         print("ERROR build failed:\n" + log)
         # a build failure of the (repo-independent) Coq development is a harness malfunction
